@@ -11,6 +11,23 @@ fn put_file(dir: &Path, name: &str, bytes: &[u8]) {
     std::fs::File::create(dir.join(name)).unwrap().write_all(bytes).unwrap();
 }
 
+fn all_named_are(dir: &Path, name: &str, want: &[u8]) -> bool {
+    let mut ok = true;
+    if let Ok(rd) = std::fs::read_dir(dir) {
+        for e in rd.flatten() {
+            let p = e.path();
+            if p.is_dir() {
+                if p.file_name().map(|f| f != ".kismet_temp").unwrap_or(false) {
+                    ok &= all_named_are(&p, name, want);
+                }
+            } else if p.file_name().map(|f| f == name).unwrap_or(false) {
+                ok &= std::fs::read(&p).map(|b| b == want).unwrap_or(false);
+            }
+        }
+    }
+    ok
+}
+
 fn count_named(dir: &Path, name: &str) -> usize {
     let mut n = 0;
     if let Ok(rd) = std::fs::read_dir(dir) {
@@ -76,6 +93,13 @@ pub fn run(_args: &[String]) {
                                 key,
                                 |h| {
                                     judged = Some(matches!(h, CacheHit::Primary(_)));
+                                    // a judge may consume the hit: read two bytes
+                                    let mut two = [0u8; 2];
+                                    match h {
+                                        CacheHit::Primary(f) | CacheHit::Secondary(f) => {
+                                            let _ = f.read(&mut two);
+                                        }
+                                    }
                                     match action {
                                         "accept" => CacheHitAction::Accept,
                                         "promote" => CacheHitAction::Promote,
@@ -108,6 +132,9 @@ pub fn run(_args: &[String]) {
                                 }
                                 if hit && action == "promote" && !in_writer && writer != "none" && after == 0 {
                                     problem = Some("Promote of a read-only hit left no copy in the write cache".into());
+                                }
+                                if !all_named_are(&wdir, name, b"AAAA") {
+                                    problem = Some("the write cache holds a copy that is not the whole value".into());
                                 }
                                 if (action == "replace" || !hit) && writer != "none" && after == 0 {
                                     problem = Some("populated value was not stored in the write cache".into());
